@@ -800,6 +800,8 @@ pub(crate) fn get_or_create_resource_rq_id(
     let map = core.resource_map_mut();
     let (rq_id, is_new) = map.get_or_create_resource_rq_id(rqv);
     if is_new {
+        #[cfg(it4innovations_hyperqueue_verif)]
+        crate::verif::server::record_new_rq(rq_id, map.get_resource_rq_map().get(rq_id));
         let msg = ToWorkerMessage::NewResourceRequest(
             rq_id,
             map.get_resource_rq_map().get(rq_id).clone(),
